@@ -228,6 +228,63 @@ def name_reuse(rec):
                 sys.modules.pop(n, None)
 
 
+# parents whose descriptions are awkward to carry around as a docstring (extends re-reads the parent's
+# description): triple-quoted literals, quotes, backslashes, non-ASCII text, comments, Python sections
+SAVED_PARENTS = [
+    ('triple-double', 'start = Item*\nItem = Q | Word\nQ = \"\"\"<<\"\"\" >> Word << \"\"\">>\"\"\"\nWord = /[a-z]+/\nignore / +/', ['a <<b>> c', '<<a', 'a b', '']),
+    ('triple-single', "start = Item*\nItem = Q | Word\nQ = '''<''' >> Word << '''>'''\nWord = /[a-z]+/\nignore / +/", ['a <b> c', '<a', '']),
+    ('backslashes', 'start = Item*\nItem = Num | Esc | Word\nNum = /\\d+/\nEsc = "\\\\" >> /[nt\\\\]/\nWord = /[a-z]+/\nignore /[ \\t]+/',
+     ['a 12 \\n', '\\\\', 'a\\', '7']),
+    ('quotes', 'start = Item*\nItem = D | S | Word\nD = "\\"" >> Word << "\\""\nS = "\'" >> Word << "\'"\nWord = /[a-z]+/\nignore / +/',
+     ['"a" \'b\' c', '"a', '']),
+    ('non-ascii', 'start = Item*  # caf\u00e9 \u20ac\nItem = E | Word\nE = "\u20ac" >> Word\nWord = /[a-z\u00e9]+/\nignore / +/', ['\u20aca caf\u00e9', '\u20ac', 'a']),
+    ('python-section', '```\nSEP = \'\"\"\"|\\\\\'\ndef tag(x):\n    return (len(SEP), x)\n```\nstart = Item*\nItem = Word |> `tag`\nWord = /[a-z]+/\nignore / +/', ['a bc', '']),
+]
+SAVED_CHILD = 'grammar %s extends %s\nItem = ("!" >> super.Item) | super.Item\n'
+
+
+def saved_parents(rec):
+    """The parent's emitted source, executed on its own and installed under the parent's name, serves a
+    later `extends` like the in-memory parent module does."""
+    import sys
+    import types
+    for tag, pdesc, texts in SAVED_PARENTS:
+        pname, c1, c2 = diff.unique_name('vt_c11p'), diff.unique_name('vt_c11k'), diff.unique_name('vt_c11k')
+        case = dict(kind='saved-parent', tag=tag, desc=pdesc)
+        try:
+            rp = observe.compile_grammar(with_name(pdesc, pname), include_source=True)
+            if rp[0] != 'ok':
+                rec.violation('saved-parent:grammar-error', 'Grammar() of the parent', case, 'module', rp)
+                continue
+            rc1 = observe.compile_grammar(SAVED_CHILD % (c1, pname))
+            saved = types.ModuleType(pname)
+            try:
+                exec(compile(rp[1]._source_code, '<saved %s>' % pname, 'exec'), saved.__dict__)
+            except Exception as e:
+                rec.violation('saved-parent:source-does-not-load', 'emitted parent source executed on its own', case, 'loads', '%s: %s' % (type(e).__name__, str(e)[:120]))
+                continue
+            sys.modules[pname] = saved
+            rc2 = observe.compile_grammar(SAVED_CHILD % (c2, pname))
+            rec.case()
+            rec.count('saved_parent_children_compiled')
+            if rc1[0] != 'ok' or rc2[0] != 'ok':
+                if rc1[:2] != rc2[:2]:
+                    rec.violation('saved-parent:child-grammar-differs', 'child compiled against the in-memory parent vs against the saved parent source',
+                                  case, rc1[:2], rc2[:2])
+                continue
+            for t in texts + ['!' + x for x in texts]:
+                for mods, what in (((rp[1], saved), 'parent'), ((rc1[1], rc2[1]), 'child')):
+                    want, got = call_outcome(mods[0], None, t, 0, True), call_outcome(mods[1], None, t, 0, True)
+                    rec.case()
+                    rec.nontrivial(('saved-parent', tag, what, t))
+                    if not observe.same_outcome(want, got):
+                        rec.violation('saved-parent:%s-differs' % what, 'in-memory module vs module built on / from the saved parent source',
+                                      dict(case, text_repr=repr(t)), want, got)
+        finally:
+            for n in (pname, c1, c2):
+                sys.modules.pop(n, None)
+
+
 def generated(rec, i):
     """(tag, G, inputs alphabet extras) from the owning generators."""
     k = i % 7
@@ -377,6 +434,9 @@ def run_shard(rec):
     idx += 1
     if rec.mine(idx):
         name_reuse(rec)
+    idx += 1
+    if rec.mine(idx):
+        saved_parents(rec)
     n = 14 if quick else 400
     for i in range(n):
         if rec.out_of_time():
@@ -416,6 +476,8 @@ def replay(rec, rep):
     case = rep['case']
     if case.get('kind') == 'name-reuse':
         return name_reuse(rec)
+    if case.get('kind') == 'saved-parent':
+        return saved_parents(rec)
     desc = case['desc']
     batch = Batch()
     for tag, d, texts in STATEFUL:
